@@ -649,7 +649,14 @@ func (n *dsNode) canon() string {
 		}
 	}
 	if rs.LastCommit != nil {
-		fmt.Fprintf(&b, "|lc%s", rs.LastCommit.BitArrayString())
+		// a decided node gossips its last commit: the round and the very votes are part of what the others may still receive
+		// (C03's suffix depends on them), not only who signed
+		fmt.Fprintf(&b, "|lc%s r%d", rs.LastCommit.BitArrayString(), rs.LastCommit.GetRound())
+		for i := 0; i < rs.LastCommit.Size(); i++ {
+			if v := rs.LastCommit.GetByIndex(int32(i)); v != nil {
+				fmt.Fprintf(&b, " %d:%X/%X", i, v.BlockID.Hash, v.Signature[:6])
+			}
+		}
 	}
 	if n.w.TrackSigned {
 		fmt.Fprintf(&b, "|sg%v", n.signed)
